@@ -226,6 +226,18 @@ func (s *JavaRefactorListener) EnterExpression(ctx *ExpressionContext) {
 	}
 }
 
+// a name standing alone as an expression (initializer, operand, case label, annotation value, ...):
+// it may be a statically imported field
+func (s *JavaRefactorListener) EnterPrimary(ctx *PrimaryContext) {
+	if ctx.Identifier() == nil {
+		return
+	}
+	startLine := ctx.GetStart().GetLine()
+	stopLine := ctx.GetStop().GetLine()
+	field := model.JField{Name: ctx.Identifier().GetText(), Source: node.Pkg, StartLine: startLine, StopLine: stopLine}
+	node.AddField(field)
+}
+
 func isUppercaseText(text string) bool {
 	return !strings.Contains(text, ".") && unicode.IsUpper([]rune(text)[0])
 }
